@@ -8,6 +8,7 @@ import (
 	gqlparser "github.com/vektah/gqlparser/v2"
 	"github.com/vektah/gqlparser/v2/ast"
 	"github.com/vektah/gqlparser/v2/parser"
+	"github.com/vektah/gqlparser/v2/validator"
 
 	"verif/harness/internal/core"
 	"verif/harness/internal/gen"
@@ -51,6 +52,12 @@ func c07Run(x *core.Ctx) {
 		src := rn.RenderSDoc(&model.SDoc{Items: items})
 		c := core.NewCase("schema", "src", src, "expect", "load")
 		x.Do(c, func() { c07Check(x, c) })
+		if i%5 == 1 {
+			// the same valid text from a source flagged built-in (frameworks ship such sources next to the prelude)
+			cb := core.NewCase("schema", "src", src, "expect", "load", "builtin-first", "1")
+			x.Do(cb, func() { c07Check(x, cb) })
+			x.Count("valid_from_builtin_flagged_source")
+		}
 		split := func(c *core.Case, its []*model.Item) {
 			// the same definitions over two or three sources (the loader merges sources before it validates)
 			if len(its) < 3 || (i+len(its))%3 != 0 {
@@ -158,6 +165,7 @@ func c07Check(x *core.Ctx, c *core.Case) {
 		x.Violate("result-shape", "LoadSchema returned neither a schema nor an error", "a schema or an error")
 		return
 	}
+	c07EntryPoints(x, sources, schema, err)
 	x.Nontrivial()
 	switch {
 	case expect == "load":
@@ -469,4 +477,51 @@ func grammarAccepts(g *ref.Grammar, src string) bool {
 	}
 	ok, _, _ := g.Recognize(ref.GToksFromLex(rr.Toks))
 	return ok
+}
+
+// c07EntryPoints: the other public ways of loading the same sources must agree with LoadSchema: MustLoadSchema panics exactly
+// when LoadSchema fails, and ValidateSchemaDocument over ParseSchemas(prelude, sources...) returns the same verdict, the same
+// error text and (through the canonical dump) the same schema.
+func c07EntryPoints(x *core.Ctx, sources []*ast.Source, schema *ast.Schema, err error) {
+	if core.HashString(sources[0].Input)%4 != 0 {
+		return
+	}
+	x.Count("entry_point_comparisons")
+	var panicked interface{}
+	var ms *ast.Schema
+	func() {
+		defer func() { panicked = recover() }()
+		ms = gqlparser.MustLoadSchema(sources...)
+	}()
+	if (panicked != nil) != (err != nil) || (panicked == nil && ms == nil) {
+		x.Violate("MustLoadSchema:verdict", fmt.Sprintf("panicked=%v schema=%v", panicked != nil, ms != nil), fmt.Sprintf("panic iff LoadSchema fails (%v)", err))
+		return
+	}
+	all := append([]*ast.Source{validator.Prelude}, sources...)
+	sd, perr := parser.ParseSchemas(all...)
+	if perr != nil {
+		if err == nil || perr.Error() != err.Error() {
+			x.Violate("ParseSchemas:differs-from-LoadSchema", perr.Error(), fmt.Sprint(err))
+		}
+		return
+	}
+	vs, verr := validator.ValidateSchemaDocument(sd)
+	switch {
+	case (verr != nil) != (err != nil):
+		x.Violate("ValidateSchemaDocument:verdict", fmt.Sprint(verr), fmt.Sprint(err))
+	case verr != nil && verr.Error() != err.Error():
+		x.Violate("ValidateSchemaDocument:error-text", verr.Error(), err.Error())
+	case verr == nil:
+		o := model.CanonOpts{}
+		if a, b := model.CanonSchema(vs, o), model.CanonSchema(schema, o); a != b {
+			da, db := model.FirstDiff(a, b)
+			x.Violate("ValidateSchemaDocument:schema-differs", da, "the schema LoadSchema returns: "+db)
+		}
+		if ms != nil {
+			if a, b := model.CanonSchema(ms, o), model.CanonSchema(schema, o); a != b {
+				da, db := model.FirstDiff(a, b)
+				x.Violate("MustLoadSchema:schema-differs", da, "the schema LoadSchema returns: "+db)
+			}
+		}
+	}
 }
